@@ -8,7 +8,7 @@ import common
 def arg_text(a):
     if a["kw"] is not None:
         return f"{a['kw']}={a['val']}"
-    return a["star"] + a["val"]
+    return a["star"] + a["val"]      # a bare generator's text carries no parentheses, a parenthesised one's does
 
 
 def to_model(node_args):
@@ -16,7 +16,8 @@ def to_model(node_args):
     m = cst.Module([])
     out = []
     for a in node_args:
-        out.append({"kw": a.keyword.value if a.keyword else None, "star": a.star, "val": m.code_for_node(a.value)})
+        out.append({"kw": a.keyword.value if a.keyword else None, "star": a.star, "val": m.code_for_node(a.value),
+                    "gen": isinstance(a.value, cst.GeneratorExp) and not a.value.lpar})
     return out
 
 
@@ -25,6 +26,13 @@ def gen_args(rng, malformed=False):
     vals = ["x", "1", "False", "f(y)", "[1, 2]", "'s'"]
     n = rng.randint(0, 5)
     args, seen_kw, seen_ds = [], False, False
+    if rng.random() < 0.12:
+        # a generator argument: bare as the only argument, with its own parentheses (or wrongly bare) next to others
+        g = {"kw": None, "star": "", "val": "u for u in us", "gen": True}
+        if rng.random() < 0.6:
+            return [g]
+        g2 = g if malformed else {"kw": None, "star": "", "val": "(u for u in us)", "gen": False}
+        return [g2, {"kw": rng.choice(kws), "star": "", "val": rng.choice(vals), "gen": False}]
     for _ in range(n):
         k = rng.random()
         if malformed:
@@ -35,10 +43,10 @@ def gen_args(rng, malformed=False):
             kind = rng.choice(["kw", "kw", "star", "dstar"])
         else:
             kind = rng.choice(["pos", "pos", "kw", "star", "dstar"])
-        if kind == "pos": args.append({"kw": None, "star": "", "val": rng.choice(vals)})
-        elif kind == "kw": args.append({"kw": rng.choice(kws), "star": "", "val": rng.choice(vals)}); seen_kw = True
-        elif kind == "star": args.append({"kw": None, "star": "*", "val": rng.choice(["xs", "f()"])})
-        else: args.append({"kw": None, "star": "**", "val": rng.choice(["kw", "d()"])}); seen_kw = seen_ds = True
+        if kind == "pos": args.append({"kw": None, "star": "", "val": rng.choice(vals), "gen": False})
+        elif kind == "kw": args.append({"kw": rng.choice(kws), "star": "", "val": rng.choice(vals), "gen": False}); seen_kw = True
+        elif kind == "star": args.append({"kw": None, "star": "*", "val": rng.choice(["xs", "f()"]), "gen": False})
+        else: args.append({"kw": None, "star": "**", "val": rng.choice(["kw", "d()"]), "gen": False}); seen_kw = seen_ds = True
     return args
 
 
@@ -72,8 +80,10 @@ def corr(ctx, n_quick=250, n_thorough=2000):
         new_args = obj.replace_args(call, [NewArg(**s) for s in spec])
         new = call.with_changes(args=new_args)
         twice = obj.replace_args(new, [NewArg(**s) for s in spec])
+        upd = obj.update_arg_target(call, new_args)      # what the codemods do with the result
         reqs.append({"op": "replace_args", "args": to_model(call.args), "spec": spec})
-        impls.append({"args": to_model(new_args), "twice": to_model(twice), "rendered": cst.Module([]).code_for_node(new), "src": src})
+        impls.append({"args": to_model(new_args), "twice": to_model(twice), "rendered": cst.Module([]).code_for_node(new), "src": src,
+                      "updated": to_model(upd.args), "rendered_updated": cst.Module([]).code_for_node(upd)})
     for rq, im, mo in zip(reqs, impls, common.lean_ask(reqs)):
         def ok(code):
             try:
@@ -84,6 +94,8 @@ def corr(ctx, n_quick=250, n_thorough=2000):
         model_ans = {"args": mo["args"], "wf_in": mo["wf_in"], "wf_out": mo["wf_out"]}
         if "twice" in im:
             impl_ans["twice"] = im["twice"]; model_ans["twice"] = mo["twice"]
+            impl_ans["updated"] = im["updated"]; model_ans["updated"] = mo["updated"]
+            impl_ans["wf_updated"] = ok(im["rendered_updated"]); model_ans["wf_updated"] = mo["wf_updated"]
         changed = im["args"] != rq["args"]
         ctx.corr_case(rq["op"], {k: v for k, v in rq.items() if k != "op"}, impl_ans, model_ans, changed, rq["op"] + ("-changed" if changed else ""))
         yield rq, im, impl_ans
